@@ -1268,6 +1268,22 @@ def run_filter_case(case):
     except Exception as e:  # noqa: BLE001
         violation(case, "building the TrafficFilter from LUNAR_BLOCK_LIST=%r LUNAR_ALLOW_LIST=%r raised %r" % (block, allow, e))
     bl, al = split_list(block), split_list(allow)
+    # membership is what a list decides by: the same lists with every entry written twice (next to each other / once
+    # more at the end) must give the same answers
+    twins = []
+    if bl or al:
+        def twice(entries, adjacent):
+            if not entries:
+                return None
+            return ",".join([e for x in entries for e in (x, x)] if adjacent else list(entries) + list(entries))
+        for adjacent in (True, False):
+            try:
+                twins.append((build_traffic_filter(twice(bl, adjacent) if block else block, twice(al, adjacent) if allow else allow),
+                              "next to each other" if adjacent else "once more at the end"))
+            except Infra:
+                raise
+            except Exception as e:  # noqa: BLE001
+                violation(case, "building the TrafficFilter from the same lists with every entry written twice raised %r" % (e,))
     rec.cls("lists: " + ("allow+block" if (al and bl) else "allow only" if al else "block only" if bl else "none"))
     if bl and not all(entry_surely_valid(e) for e in bl):
         rec.cls("lists: block list has an invalid/doubtful entry")
@@ -1328,6 +1344,18 @@ def run_filter_case(case):
         rec.cls("answer: " + ("forward" if res else "refuse"))
         if must is not None and res != must:
             violation(case, "%s returned %s although %s (destination %s)" % (where, res, why, dest))
+        for tf2, how in twins:
+            res2 = None
+            try:
+                with SUT:
+                    res2 = tf2.is_allowed(host, dict(headers) if headers is not None else None)
+            except (PropertyViolation, Infra, NetworkAccess):
+                raise
+            except BaseException:  # noqa: BLE001
+                continue  # raising is judged above, on the lists as given
+            rec.cls("answers compared with the same lists written twice")
+            if res2 != res:
+                violation(case, "%s returned %s, but %s with every list entry written twice (%s): a decision depends on how often an entry is written" % (where, res, res2, how))
     rec.case()
     if nontrivial:
         rec.non_trivial(canon(case), lambda: json.loads(canon(case)))
